@@ -8,10 +8,18 @@ Line-protocol operations for the configuration model (C14, used by C15).
   cfg.set <max_width>                    -> w1,…,w8     `WidthHeuristics::set`
   cfg.null                               -> w1,…,w8     `WidthHeuristics::null`
   cfg.apply <op> … <op>                  -> fields | err
-  cfg.applyget <key,…> <op> … <op>       -> fields | err     (same, for the listed option names)
+  cfg.applyget <key,…|*> <op> … <op>     -> fields | err     (same, for the listed option names; `*` = every option)
   cfg.clamped <max_width> <widths>       -> ok | bad:<i>     oracle of `explicit_width_clamped`
   cfg.gettoml <tree> <dir>               -> file | none      `get_toml_path`
   cfg.resolve <tree> <dir> [<home> [<config dir>]]  -> file | none | err   `resolve_project_file`
+  cfg.loadall  (same arguments as cfg.load)           -> the same with the fields of EVERY option
+  cfg.loadpath (same arguments)                       -> file | none | err:<kind>
+  cfg.loadvals <key,…> (same arguments)               -> key=value;… | err:<kind>      (values only)
+  cfg.loadtoml (same arguments)                       -> key=value;… | unprintable | err:<kind>
+                                            what `--print-config current` prints (`to_toml` of `all_options`)
+  cfg.roundtrip <op> … <op>              -> same | diff:<key,…> | unprintable | rejected | err
+                                            print the configuration the ops produce (`to_toml` of `all_options`), load
+                                            the text with `from_toml` (nightly): the options whose value changed
   cfg.edition <style_edition|-> <version|-> <edition|->  -> <chosen>:<style_edition option>
   cfg.load <nightly> <tree> <home> <config dir> <file dir> <contents> <flags> <inline> -> file|none ; fields | err:<kind>
 
@@ -237,6 +245,28 @@ def decFlagsAux : List String → CliOptions String → Option (CliOptions Strin
 def decFlags (s : String) : Option (CliOptions String) :=
   if s == "_" then some {} else decFlagsAux (s.splitOn ",") {}
 
+def encVals (l : List (String × Val)) : String :=
+  String.intercalate ";" (l.map fun kv => s!"{kv.1}={encVal kv.2}")
+
+/-- The eight arguments of the `cfg.load*` family, `load_config`, and a printer for its result. -/
+def withLoad (args : List String) (k : Config → Option (ConfigFile String) → String) :
+    Option String :=
+  match args with
+  | [nightly, t, home, cfg, fp, contents, flags, inl] => do
+    let nightly ← decBit nightly
+    let t ← decTree t
+    let home ← decOptDir home
+    let cfg ← decOptDir cfg
+    let fp ← decOptDir fp
+    let cs ← decContents contents
+    let o ← decFlags flags
+    let inl ← decPairs inl
+    let o := { o with inlineConfig := inl }
+    match loadConfig ⟨nightly⟩ ⟨t, home, cfg, "rustfmt", readOf cs⟩ fp (some o) with
+    | .ok (c, p) => pure (k c p)
+    | .error e => pure (encErr e)
+  | _ => none
+
 def handle (op : String) (args : List String) : Option String :=
   match op, args with
   | "cfg.scaled", [mw] => mw.toNat?.map fun mw => encWidths (WidthHeuristics.scaled mw)
@@ -244,7 +274,23 @@ def handle (op : String) (args : List String) : Option String :=
   | "cfg.set", [mw] => mw.toNat?.map fun mw => encWidths (WidthHeuristics.set mw)
   | "cfg.null", [] => some (encWidths WidthHeuristics.null)
   | "cfg.apply", ops => apply reportKeys ops
-  | "cfg.applyget", keys :: ops => apply (keys.splitOn ",") ops
+  | "cfg.applyget", keys :: ops => apply (if keys == "*" then optionNames else keys.splitOn ",") ops
+  | "cfg.roundtrip", ops =>
+    match ops.mapM decTok with
+    | none => none
+    | some toks =>
+      match runToks toks ⟨true⟩ (defaultWithStyleEdition .e2015) with
+      | none => some "err"
+      | some c =>
+        match toToml c with
+        | none => some "unprintable"
+        | some l =>
+          match fromToml ⟨true⟩ l none none none with
+          | none => some "rejected"
+          | some c2 =>
+            match valueDiff c c2 with
+            | [] => some "same"
+            | ks => some ("diff:" ++ String.intercalate "," ks)
   | "cfg.clamped", [mw, ws] => do
     let mw ← mw.toNat?
     let ws ← (ws.splitOn ",").mapM decWidthBit
@@ -275,19 +321,14 @@ def handle (op : String) (args : List String) : Option String :=
       | .str s => s
       | _ => "?"
     pure s!"{(chosenStyleEdition se ed ver).toStr}:{field}"
-  | "cfg.load", [nightly, t, home, cfg, fp, contents, flags, inl] => do
-    let nightly ← decBit nightly
-    let t ← decTree t
-    let home ← decOptDir home
-    let cfg ← decOptDir cfg
-    let fp ← decOptDir fp
-    let cs ← decContents contents
-    let o ← decFlags flags
-    let inl ← decPairs inl
-    let o := { o with inlineConfig := inl }
-    match loadConfig ⟨nightly⟩ ⟨t, home, cfg, "rustfmt", readOf cs⟩ fp (some o) with
-    | .ok (c, p) => pure (encOptFile p ++ ";" ++ encFields reportKeys c)
-    | .error e => pure (encErr e)
+  | "cfg.load", args => withLoad args fun c p => encOptFile p ++ ";" ++ encFields reportKeys c
+  | "cfg.loadall", args => withLoad args fun c p => encOptFile p ++ ";" ++ encFields optionNames c
+  | "cfg.loadpath", args => withLoad args fun _ p => encOptFile p
+  | "cfg.loadvals", keys :: args => withLoad args fun c _ => encVals ((keys.splitOn ",").map fun k => (k, (getE c k).val))
+  | "cfg.loadtoml", args => withLoad args fun c _ =>
+    match toToml c with
+    | some l => encVals l
+    | none => "unprintable"
   | _, _ => none
 
 end RF.Driver.Config
